@@ -131,7 +131,8 @@ class Context:
                     self.cache["inlined_helpers:" + rel] = inline_new_helpers(mod, known) + n_gen
                 from .inline_helpers import inline_new_module_constants, module_names
                 if module_names().get(rel) is not None and os.environ.get("VERIF_NO_INLINE") != "1":
-                    self.cache["inlined_constants:" + rel] = inline_new_module_constants(mod, module_names()[rel])
+                    from .inline_helpers import inline_new_class_constants
+                    self.cache["inlined_constants:" + rel] = inline_new_module_constants(mod, module_names()[rel]) + inline_new_class_constants(mod, module_names()[rel])
                 from .pyutil import unroll_literal_dispatch_inplace, loops_to_comprehensions_inplace, merge_nested_ifs_inplace
                 unroll_literal_dispatch_inplace(mod)
                 if os.environ.get("VERIF_NO_EXTENDLOOP") != "1":
